@@ -19,7 +19,7 @@ CONSTANTS
   CfgIds = {1}
   RemoteKeys = {}
   LocalKeys = {}
-  OtherCls = {"indication", "success", "error"}
+  OtherCls = {"indication", "success", "error", "data"}
   InCls = {}
   CancelOps = {"cancel_rt"}
   Horizon = 6
